@@ -26,8 +26,12 @@ CFG = dict(
              "diverged-merge} x destination kind {remote-tracking, head, tag, custom} x destination present/absent x "
              "per-refspec force x global force for fetch (256) and push (x server denyNonFastForwards, 512); relation x "
              "{--ff,--no-ff,--ff-only} x other-ref kind for merge (72); relation x mode x branch present x forces x "
-             "tracking-ref state for pull (576); quick tier keeps a hashed 1/2, 1/4, 1/6 of the fetch/push/pull tables, "
-             "thorough all of them under 3 timestamp regimes; witnesses: glob fetch with mixed outcomes and uncovered "
+             "tracking-ref state for pull (576); cross-kind tables for fetch and for push: relation x SOURCE kind {heads, "
+             "tags, remotes, other} x DESTINATION kind {heads, tags, remotes, other} (every pair) x destination "
+             "present/absent x per-refspec + x --force (1024 each; the rules and the oracle's tag protection are keyed "
+             "on the destination name); quick tier keeps a hashed 1/2, 1/4, 1/6, 1/8 of the fetch/push/pull/cross-kind tables, "
+             "thorough all of them under 3 timestamp regimes; witnesses: a branch fetched / pushed onto an existing tag (descendant commit, no force: must be refused) and a tag "
+             "onto an existing branch, glob fetch with mixed outcomes and uncovered "
              "tags, short-ref glob (panicked before fix 598c9ec), multi-item push with deletes under denyDeletes/denyNonFF, missing push source, "
              "pull-new-branch-glob; random: 3..10-commit DAGs, 6 ref names, multi-ref fetch (glob + tag + custom specs) "
              "or push. distinct = distinct case text; all cases non-trivial (each runs one command on a fresh repository)",
